@@ -10,6 +10,8 @@
 //       E <conn> <0|1> <end>                    setSourceEndpoint / setDestEndpoint
 //       M <shape> <dx> <dy>                     moveShape
 //       D <shape> | DJ <junction> | X <conn>    deleteShape / deleteJunction / deleteConnector
+//       K <conn> <k> (<x> <y>)*k                ConnRef::setRoutingCheckpoints (k = 0 clears them)
+//       I <conn>                                ConnRef::makePathInvalid (forces a reroute at the next transaction)
 //       T                                       processTransaction
 //       Q                                       delete router
 #include <cstdio>
@@ -88,6 +90,12 @@ static void dump(const char *op)
     std::sort(q.begin(), q.end());
     printf(" | q");
     for (auto &s : q) printf(" %s", s.c_str());
+    // checkpoint vertices in the router's vertex list, per owning connector
+    std::map<unsigned, unsigned> cps;
+    for (VertInf *v = router->vertices.connsBegin(); v != router->vertices.end(); v = v->lstNext)
+        if (v->id.isConnCheckpoint()) cps[v->id.objID]++;
+    printf(" | cp");
+    for (auto &kv : cps) printf(" %u:%u", kv.first, kv.second);
     printf("\n");
     fflush(stdout);
 }
@@ -139,6 +147,14 @@ int main()
             } else if (op == "X") {
                 unsigned id; in >> id;
                 router->deleteConnector(conns.at(id)); conns.erase(id);
+            } else if (op == "K") {
+                unsigned id; int k; in >> id >> k;
+                std::vector<Checkpoint> cps;
+                for (int i = 0; i < k; ++i) { double x, y; in >> x >> y; cps.push_back(Checkpoint(Point(x, y))); }
+                conns.at(id)->setRoutingCheckpoints(cps);
+            } else if (op == "I") {
+                unsigned id; in >> id;
+                conns.at(id)->makePathInvalid();
             } else if (op == "T") {
                 router->processTransaction();
             } else if (op == "Q") {
